@@ -27,7 +27,7 @@ KNOWN_EXTRA = "C14-cloned-node-keeps-source-refs"
 KNOWN_CYCLE = "C14-cyclic-child-refs-recursion"
 KNOWN_DUP = "C14-same-model-duplicate-names-reparented"
 KNOWN_DETACHED = "C14-detached-bone-dropped"
-API_MODELS = ["@dup", "@unnamed"]      # built through the API by harness/o_clone.cpp (two nodes of one name / two unnamed nodes)
+API_MODELS = ["@dup", "@unnamed", "@dupbone"]      # built through the API by harness/o_clone.cpp (two nodes of one name / two unnamed nodes)
 
 
 def round_fields(rest):
@@ -370,6 +370,11 @@ def run(tier, seed, replay=None):
                 except (IndexError, ValueError, KeyError):
                     skinned = False
                 if skinned and f not in plain_files:
+                    # a bone list naming one name twice (the second bone node renamed to the first bone's name)
+                    cases.append("clone name=%s dest=same shape=%d rounds=2 pre=dupbone" % (f, kk))
+                    cases.append("clone name=%s dest=fresh shape=%d rounds=2 pre=dupbone" % (f, kk))
+                    if others:
+                        cases.append("clone name=%s dest=other:%s shape=%d rounds=1 pre=dupbone" % (f, rng.choice(others), kk))
                     cases.append("clone name=%s dest=fresh shape=%d rounds=1 pre=detached" % (f, kk))
                     if others:
                         cases.append("clone name=%s dest=other:%s shape=%d rounds=1 pre=detached" % (f, rng.choice(others), kk))
@@ -513,6 +518,17 @@ def run(tier, seed, replay=None):
                     if dropped and part in ("k", "bk", "bones"):
                         continue
                     errs.append("round %d: %s of the clone differs from the source shape's (%s vs %s)" % (k + 1, what, cg.get(part), sg.get(part)))
+            sbl = sg.get("bones", "").split(",") if sg.get("bones") else []
+            cbl = cg.get("bones", "").split(",") if cg.get("bones") else []
+            if sbl != cbl and not dropped:
+                j = next((j for j, (x, y) in enumerate(zip(sbl, cbl)) if x != y), min(len(sbl), len(cbl)))
+                errs.append("round %d: the clone's bone list has %d entries, the source's %d; entry %d: clone %s, source %s (names with multiplicity must agree entry by entry)" % (
+                    k + 1, len(cbl), len(sbl), j, "'%s'" % bytes.fromhex(cbl[j]).decode("latin1") if j < len(cbl) else "-",
+                    "'%s'" % bytes.fromhex(sbl[j]).decode("latin1") if j < len(sbl) else "-"))
+                if len(set(sbl)) < len(sbl):
+                    stats["repeated_bone_name_sources"] = stats.get("repeated_bone_name_sources", 0) + 1
+            elif len(set(sbl)) < len(sbl):
+                stats["repeated_bone_name_sources"] = stats.get("repeated_bone_name_sources", 0) + 1
             if dropped:
                 # the bone count is part of the payload token of the bone container: its clone's token differs
                 try:
@@ -597,7 +613,7 @@ def run(tier, seed, replay=None):
         if dup_errs:
             # status "fixed": the defect coming back is a violation
             known_or_violation(rep, KNOWN_DUP, "%s: %s" % (c, dup_errs[0]), {"case": c, "family": FAMILY, "errors": dup_errs[:8]})
-        if kv.get("pre") in ("dupnames", "unnamed", "collide", "detached") or kv.get("name", "").startswith("@"):
+        if kv.get("pre") in ("dupnames", "unnamed", "collide", "detached", "dupbone") or kv.get("name", "").startswith("@"):
             stats[kv.get("pre") or "api_models"] = stats.get(kv.get("pre") or "api_models", 0) + 1
         if errs:
             rep.violation("cloned shape is not a self-contained equal copy / source touched: " + errs[0], {"case": c, "family": FAMILY, "errors": errs[:8]})
@@ -644,7 +660,7 @@ def run(tier, seed, replay=None):
     cov.update({
         "evaluations": len(cases),
         "distinct_nontrivial": len(nontriv),
-        "rule": "every sample with shapes x shapes (quick: 2 per sample) x destination {same model, fresh Create(version), other loaded samples of the same version, a second instance of the same file} x 1-3 rounds (the clone of the clone); plus per sample: a controller pointing back at the shape, a controller chain looping back, same-model cloning with two nodes of one name (added nodes / two unnamed nodes / an existing node renamed to collide; also two API-built models), a skinned shape whose last bone is attached to nothing (dest fresh / other); non-trivial = CloneShape ran and produced dumps; distinct = distinct case lines",
+        "rule": "every sample with shapes x shapes (quick: 2 per sample) x destination {same model, fresh Create(version), other loaded samples of the same version, a second instance of the same file} x 1-3 rounds (the clone of the clone); plus per sample: a controller pointing back at the shape, a controller chain looping back, same-model cloning with two nodes of one name (added nodes / two unnamed nodes / an existing node renamed to collide; also two API-built models), a skinned shape whose last bone is attached to nothing (dest fresh / other), a skinned shape whose bone list names one name / one node twice (same / fresh / other); non-trivial = CloneShape ran and produced dumps; distinct = distinct case lines",
         "samples": cases[:3] + cases[len(cases) // 2:len(cases) // 2 + 2] + cases[-2:],
         "input_distribution": stats,
         "traces_validated_against_impl": len(mcases),
